@@ -119,57 +119,134 @@ def apply(op, x, how):
     return op.dot(x)
 
 
-def run_case(c, O, K, T, U, S):
+def build(c, O, K, T, U, S):
+    """Build the object of an operator-family case ONCE.  Returns (f, op): f applies it to an
+    argument; op is the LinearOperator (None for plain functions and the CSR row classes)."""
     fam = c['fam']
-    out_arr = lambda Y: _out_arr(Y, c.get('outscale', 1))
+    how = c.get('how')
     if fam == 'tprod':
-        return out_arr(T.apply_tprod(tuple(mk(o) for o in c['ops']), mkx(c['x'])))
+        ops = tuple(mk(o) for o in c['ops'])
+        return (lambda x: T.apply_tprod(ops, x)), None
     if fam == 'modek':
-        return out_arr(T.modek_tprod(mk(c['B']), c['k'], mkx(c['x'])))
-    if fam == 'kronop':
-        op = variant(O.KroneckerOperator(*[mk(o) for o in c['ops']]), c['variant'])
-        return out_arr(apply(op, mkx(c['x']), c.get('how')))
+        B = mk(c['B'])
+        return (lambda x: T.modek_tprod(B, c['k'], x)), None
     if fam == 'applykron':
-        return out_arr(K.apply_kronecker(tuple(mk(o) for o in c['ops']), mkx(c['x'])))
-    if fam == 'block':
-        grid = []
-        for i, row in enumerate(c['grid']):
-            grid.append([mk(o) if o is not None else O.NullOperator((c['heights'][i], c['widths'][j]))
-                         for j, o in enumerate(row)])
-        op = variant(O.BlockOperator(grid), c['variant'])
-        return out_arr(apply(op, mkx(c['x']), c.get('how')))
-    if fam == 'blockdiag':
-        op = variant(O.BlockDiagonalOperator(*[mk(o) for o in c['ops']]), c['variant'])
-        return out_arr(apply(op, mkx(c['x']), c.get('how')))
-    if fam == 'diag':
-        d = (np.array(c['d'], dtype='f8') / c.get('den', 1)).astype(c.get('dtype', 'f8'))
-        if c.get('dshape'):
-            d = d.reshape(c['dshape'])
-        register('d', d)
-        op = variant(O.DiagonalOperator(d), c['variant'])
-        return out_arr(apply(op, mkx(c['x']), c.get('how')))
-    if fam == 'identity':
-        op = variant(O.IdentityOperator(c['n']), c['variant'])
-        return out_arr(apply(op, mkx(c['x']), c.get('how')))
-    if fam == 'null':
-        op = variant(O.NullOperator((c['r'], c['c'])), c['variant'])
-        return out_arr(apply(op, mkx(c['x']), c.get('how')))
-    if fam == 'subspace':
-        op = variant(O.SubspaceOperator([mk(p) for p in c['P']], [mk(b) for b in c['B']]), c['variant'])
-        return out_arr(apply(op, mkx(c['x']), c.get('how')))
+        ops = tuple(mk(o) for o in c['ops'])
+        return (lambda x: K.apply_kronecker(ops, x)), None
     if fam in ('rowslice', 'rowsubset'):
         a = c['A']
         A = scipy.sparse.csr_matrix((np.array(a['data'], dtype='f8') / a.get('den', 1), np.array(a['indices'], dtype=np.int32),
                                      np.array(a['indptr'], dtype=np.int32)), shape=(a['r'], a['c']))
         register('A', A)
         if fam == 'rowslice':
-            op = U.CSRRowSlice(A, (c['r0'], c['r1']))
+            obj = U.CSRRowSlice(A, (c['r0'], c['r1']))
         else:
-            op = U.CSRRowSubset(A, c['rows'] if c.get('rows_list') else np.array(c['rows'], dtype=int))
-        x = mkx(c['x'])
+            obj = U.CSRRowSubset(A, c['rows'] if c.get('rows_list') else np.array(c['rows'], dtype=int))
+        return (lambda x: obj * x if how == 'mul' else obj.dot(x)), None
+    if fam == 'kronop':
+        op = O.KroneckerOperator(*[mk(o) for o in c['ops']])
+    elif fam == 'block':
+        grid = []
+        for i, row in enumerate(c['grid']):
+            grid.append([mk(o) if o is not None else O.NullOperator((c['heights'][i], c['widths'][j]))
+                         for j, o in enumerate(row)])
+        op = O.BlockOperator(grid)
+    elif fam == 'blockdiag':
+        op = O.BlockDiagonalOperator(*[mk(o) for o in c['ops']])
+    elif fam == 'diag':
+        d = (np.array(c['d'], dtype='f8') / c.get('den', 1)).astype(c.get('dtype', 'f8'))
+        if c.get('dshape'):
+            d = d.reshape(c['dshape'])
+        register('d', d)
+        op = O.DiagonalOperator(d)
+    elif fam == 'identity':
+        op = O.IdentityOperator(c['n'])
+    elif fam == 'null':
+        op = O.NullOperator((c['r'], c['c']))
+    elif fam == 'subspace':
+        op = O.SubspaceOperator([mk(p) for p in c['P']], [mk(b) for b in c['B']])
+    else:
+        raise ValueError('unknown family ' + fam)
+    op = variant(op, c['variant'])
+    return (lambda x: apply(op, x, how)), op
+
+
+def _bits_eq(a, b):
+    return a.shape == b.shape and a.dtype == b.dtype and a.tobytes() == b.tobytes()
+
+
+class Kept:
+    """Results of a history on ONE object: every result is kept (not copied) together with a
+    snapshot taken when it was returned; at the end each must still equal its snapshot, and no two
+    results (nor a result and an operand) may share memory.  A result that shares memory with its
+    own argument is a pass-through (IdentityOperator, placeholder-only apply_tprod): no arithmetic,
+    exempt from the aliasing check."""
+    def __init__(self):
+        self.items = []
+
+    def add(self, name, Y, arg):
+        Y = np.asarray(Y)
+        self.items.append({'name': name, 'Y': Y, 'snap': np.array(Y, copy=True),
+                           'passthrough': bool(np.shares_memory(Y, arg))})
+        return Y
+
+    def changed(self):
+        return [it['name'] for it in self.items if not _bits_eq(it['Y'], it['snap'])]
+
+    def aliased(self):
+        out = []
+        live = [it for it in self.items if not it['passthrough'] and it['Y'].size]
+        for a in range(len(live)):
+            for b in range(a + 1, len(live)):
+                if np.shares_memory(live[a]['Y'], live[b]['Y']):
+                    out.append('%s ~ %s' % (live[a]['name'], live[b]['name']))
+            for (label, obj, _snap) in REG:
+                if label != 'x' and isinstance(obj, np.ndarray) and np.shares_memory(live[a]['Y'], obj):
+                    out.append('%s ~ operand %s' % (live[a]['name'], label))
+        return out
+
+
+def run_history(c, O, K, T, U, S):
+    """Several applications of ONE object, all results kept; compositions; results fed back."""
+    f, op = build(c, O, K, T, U, S)
+    s1 = c.get('outscale', 1)
+    xs = [mkx(c['x'])] + [mkx(x) for x in c['hist']['xs']]
+    kept = Kept()
+    steps = []
+
+    def rec(name, Y, arg, scale):
+        Y = kept.add(name, Y, arg)
+        steps.append((name, scale))
+        return Y
+
+    ys = [rec('y%d' % (k + 1), f(x), x, s1) for k, x in enumerate(xs)]
+    if op is not None:
         how = c.get('how')
-        Y = op * x if how == 'mul' else op.dot(x)
-        return out_arr(Y)
+        opT = op.T
+        t = f(xs[0])
+        rec('AT(A x1)', apply(opT, t, how), t, s1 * s1)
+        rec('(AT*A) x1', apply(opT * op, xs[0], how), xs[0], s1 * s1)
+        rec('AT(y1)', apply(opT, ys[0], how), ys[0], s1 * s1)          # the kept result fed back
+        if op.shape[0] == op.shape[1]:
+            t = f(xs[0])
+            rec('A(A x1)', f(t), t, s1 * s1)
+            rec('(A*A) x1', apply(op * op, xs[0], how), xs[0], s1 * s1)
+            rec('A(y1)', f(ys[0]), ys[0], s1 * s1)                     # the kept result fed back
+    res = {'status': 'Ok', 'steps': [], 'changed': kept.changed(), 'aliased': kept.aliased(), 'mutated': mutated()}
+    for it, (name, scale) in zip(kept.items, steps):
+        r = _out_arr(it['snap'], scale)
+        r['name'] = name
+        res['steps'].append(r)
+    return res
+
+
+def run_case(c, O, K, T, U, S):
+    fam = c['fam']
+    if fam not in ('solver', 'kronsolver', 'fastdiag'):
+        if 'hist' in c:
+            return run_history(c, O, K, T, U, S)
+        f, _op = build(c, O, K, T, U, S)
+        return _out_arr(f(mkx(c['x'])), c.get('outscale', 1))
     # ---- solver factories: floating point, the harness checks residuals exactly.
     # 'mats' are the distinct matrix OBJECTS; the factories refer to them by index, so the same
     # array may be handed over several times.  Operands are checked bitwise after construction
@@ -178,12 +255,16 @@ def run_case(c, O, K, T, U, S):
         mats = [mk(m, 'mat%d' % i) for i, m in enumerate(c['mats'])]
         x = mkx(c['x'])
         outs, mut = [], []
+        kept = Kept()
 
-        def app(op, stage):
-            Y = np.asarray(apply(op, x, c.get('how')))
-            outs.append({'stage': stage, 'dtype': str(Y.dtype), 'shape': [int(s) for s in Y.shape], 'hex': [float(v).hex() for v in Y.ravel()],
-                         'opshape': [int(s) for s in op.shape]})
+        def app(op, stage, arg=None, rhs=0):
+            """rhs: 0 = the case's x, k>0 = extra argument k, ('out', n) = the kept result n fed back"""
+            arg = x if arg is None else arg
+            Y = kept.add(stage, apply(op, arg, c.get('how')), arg)
+            outs.append({'stage': stage, 'rhs': rhs, 'dtype': str(Y.dtype), 'shape': [int(s) for s in Y.shape],
+                         'hex': [float(v).hex() for v in Y.ravel()], 'opshape': [int(s) for s in op.shape]})
             mut.extend('%s after %s' % (m, stage) for m in mutated())
+            return Y
 
         if fam == 'solver':
             ops = []
@@ -202,7 +283,13 @@ def run_case(c, O, K, T, U, S):
             mut.extend('%s after construction' % m for m in mutated())
             app(op, 'first application')
             app(op, 'second application')
-        return {'status': 'Ok', 'outs': outs, 'mutated': sorted(set(mut))}
+            ops = [op]
+        # history on one solver object: further right-hand sides, then an earlier result fed back
+        for k, xk in enumerate(c.get('xs', [])):
+            app(ops[0], 'right-hand side %d' % (k + 2), mkx(xk), k + 1)
+        app(ops[0], 'result 0 fed back', kept.items[0]['Y'], ['out', 0])
+        return {'status': 'Ok', 'outs': outs, 'mutated': sorted(set(mut)), 'changed': kept.changed(),
+                'aliased': kept.aliased()}
     raise ValueError('unknown family ' + fam)
 
 
